@@ -374,6 +374,25 @@ theorem c19_history_agrees_with_evaluated_source :
     ∃ f, Gen.CascadeTable.histFacts = some f ∧ histAgrees f = true := by
   refine ⟨_, rfl, by decide +kernel⟩
 
+/-- **The statistics count what the runs reported.**  After any sequence of calls, `runs_count` is the number of calls,
+    `successful_runs` the number of calls whose result carried `success = true`, `failed_runs` the number whose result
+    carried `success = false` (a fork of an empty cascade raises after it was counted and is neither) — so by
+    `c19_success_iff_all_completed_in_order` a sequential run is counted as successful exactly when every stage completed in
+    order.  `Gen/CascadeTable.lean :: statFacts` (the counters of the real cascades driven for `histFacts`, read through
+    `get_statistics()`) are reproduced by the model. -/
+theorem c19_statistics_count_what_the_runs_reported (cs : List (Call σ)) :
+    (statsAfter cs).runs = cs.length ∧
+    (statsAfter cs).ok = (cs.filter fun c => callSucceeded c == some true).length ∧
+    (statsAfter cs).bad = (cs.filter fun c => callSucceeded c == some false).length ∧
+    (statsAfter cs).ok + (statsAfter cs).bad ≤ (statsAfter cs).runs ∧
+    ∃ f, Gen.CascadeTable.statFacts = some f ∧ statsAgrees f = true := by
+  obtain ⟨h1, h2, h3⟩ := foldl_statsStep cs ⟨0, 0, 0⟩
+  simp only [Nat.zero_add] at h1 h2 h3
+  refine ⟨h1, h2, h3, ?_, _, rfl, by decide +kernel⟩
+  unfold statsAfter
+  rw [h1, h2, h3]
+  exact ok_bad_le cs
+
 /-- **An AgentCascade is a cascade.**  `Gen/CascadeTable.lean :: agentFacts` is regenerated on every run by evaluating the
     real `AgentCascade.add_agent_stage` with a stub agent class: `run`, `run_parallel`, `get_history` are the inherited
     functions; the stage registered is gated by exactly the checkpoint handed in (ungated when none is), has no error handler,
